@@ -124,8 +124,10 @@ func keyIndexOf(pub32 []byte) int {
 }
 
 // norm32 is what a fixed 32-byte key type makes of arbitrary bytes (lenient reading).
-func norm32(b []byte) []byte {
-	out := make([]byte, 32)
+func norm32(b []byte) []byte { return norm(b, 32) }
+
+func norm(b []byte, n int) []byte {
+	out := make([]byte, n)
 	copy(out, b)
 	return out
 }
@@ -218,68 +220,70 @@ func genVals(t *rapid.T) []ValSpec {
 	return out
 }
 
+// NOTE on weights: rapid draws small values / early list positions more often than late
+// ones, so the ordinary choice always comes first and the special shapes last.
 func genSig(t *rapid.T) SigSpec {
 	s := SigSpec{Key: rapid.IntRange(0, nKeys-1).Draw(t, "sigkey"), PubLen: 32, SigLen: 64}
-	switch rapid.IntRange(0, 19).Draw(t, "sigshape") {
-	case 0:
+	switch rapid.SampledFrom([]string{"ok", "ok", "ok", "ok", "ok", "ok", "ok", "ok", "othermsg", "emptymsg", "pubshort", "publong", "sigshort", "siglong", "flip"}).Draw(t, "sigshape") {
+	case "othermsg":
 		s.Msg = "power"
-	case 1:
+	case "emptymsg":
 		s.Msg = "empty"
-	case 2:
-		s.PubLen = rapid.SampledFrom([]int{0, 1, 31}).Draw(t, "publen")
-	case 3:
+	case "pubshort":
+		s.PubLen = rapid.SampledFrom([]int{31, 0, 1}).Draw(t, "publen")
+	case "publong":
 		s.PubLen = rapid.SampledFrom([]int{33, 40, 64}).Draw(t, "publen")
-	case 4:
-		s.SigLen = rapid.SampledFrom([]int{0, 32, 63}).Draw(t, "siglen")
-	case 5:
+	case "sigshort":
+		s.SigLen = rapid.SampledFrom([]int{63, 32, 0}).Draw(t, "siglen")
+	case "siglong":
 		s.SigLen = rapid.SampledFrom([]int{65, 96, 128}).Draw(t, "siglen")
-	case 6:
+	case "flip":
 		s.Flip = true
 	}
 	return s
 }
 
+func rare(t *rapid.T, label string, oneIn int) bool {
+	return rapid.IntRange(0, oneIn-1).Draw(t, label) == oneIn-1
+}
+
 func genReq(t *rapid.T, prev *ReqSpec) *ReqSpec {
-	if prev != nil && rapid.IntRange(0, 7).Draw(t, "again") == 0 {
+	if prev != nil && rare(t, "again", 7) {
 		// the same command issued again as a NEW request (fresh nonce, fresh signatures)
 		cp := *prev
 		cp.Sigs = append([]SigSpec{}, prev.Sigs...)
 		cp.NonceDelta = 0
+		cp.Raw = ""
 		cp.Sender = rapid.IntRange(0, nAccts-1).Draw(t, "sender")
 		cp.Addr = cp.Sender
 		return &cp
 	}
 	r := &ReqSpec{TargetLen: 32}
-	r.Cmd = rapid.SampledFrom([]string{"update_node", "update_node", "update_node", "remove_node", "remove_node", "add_peer", "add_peer", "add_peer", "bogus"}).Draw(t, "cmd")
-	if r.Cmd == "bogus" && rapid.Bool().Draw(t, "emptycmd") {
-		r.Cmd = ""
-	}
-	if rapid.IntRange(0, 29).Draw(t, "cmdtype") == 0 {
+	r.Cmd = rapid.SampledFrom([]string{"update_node", "remove_node", "add_peer", "update_node", "add_peer", "remove_node", "update_node", "add_peer", "bogus", ""}).Draw(t, "cmd")
+	if rare(t, "cmdtype", 40) {
 		r.CmdType = "somethingElse"
 	}
 	r.Target = rapid.IntRange(0, nKeys-1).Draw(t, "target")
-	if rapid.IntRange(0, 19).Draw(t, "targetshape") == 0 {
-		r.TargetLen = rapid.SampledFrom([]int{0, 31, 33, 48}).Draw(t, "targetlen")
+	if rare(t, "targetshape", 20) {
+		r.TargetLen = rapid.SampledFrom([]int{33, 48, 31, 0}).Draw(t, "targetlen")
+		if r.Cmd == "add_peer" && r.TargetLen < 32 {
+			r.TargetLen = 33 // see domainOK
+		}
 	}
 	r.Power = genPower(t, "newpower")
 	r.Sender = rapid.IntRange(0, nAccts-1).Draw(t, "sender")
 	r.Addr = r.Sender
-	switch rapid.IntRange(0, 19).Draw(t, "addrshape") {
-	case 0:
+	switch rapid.SampledFrom([]string{"own", "own", "own", "own", "own", "own", "own", "own", "own", "own", "own", "own", "other", "none"}).Draw(t, "addrshape") {
+	case "other":
 		r.Addr = rapid.IntRange(0, nAccts-1).Draw(t, "addr")
-	case 1:
+	case "none":
 		r.Addr = -1
 	}
-	switch rapid.IntRange(0, 9).Draw(t, "nonceshape") {
-	case 0:
-		r.NonceDelta = -1
-	case 1:
-		r.NonceDelta = rapid.SampledFrom([]int64{1, 1, 2, 1 << 32}).Draw(t, "future")
-	}
+	r.NonceDelta = rapid.SampledFrom([]int64{0, 0, 0, 0, 0, 0, 0, 0, 0, -1, 1, 2, -2, 1 << 32}).Draw(t, "noncedelta")
 	if r.Cmd == "add_peer" {
-		r.Self = rapid.SampledFrom([]string{"", "", "", "", "", "", "", "none", "wrongmsg", "otherkey"}).Draw(t, "self")
+		r.Self = rapid.SampledFrom([]string{"", "", "", "", "", "", "", "", "none", "wrongmsg", "otherkey"}).Draw(t, "self")
 	}
-	r.Quorum = rapid.SampledFrom([]string{"", "", "", "all", "all", "allbutone", "heaviest-repeated"}).Draw(t, "quorum")
+	r.Quorum = rapid.SampledFrom([]string{"all", "", "all", "allbutone", "", "heaviest-repeated", "all"}).Draw(t, "quorum")
 	if r.Quorum == "heaviest-repeated" {
 		r.Repeat = rapid.IntRange(2, 6).Draw(t, "repeat")
 	}
@@ -289,13 +293,13 @@ func genReq(t *rapid.T, prev *ReqSpec) *ReqSpec {
 	}
 	n := rapid.IntRange(0, maxNoise).Draw(t, "nsigs")
 	for i := 0; i < n; i++ {
-		if len(r.Sigs) > 0 && rapid.IntRange(0, 4).Draw(t, "dup") == 0 {
+		if len(r.Sigs) > 0 && rare(t, "dup", 4) {
 			r.Sigs = append(r.Sigs, r.Sigs[rapid.IntRange(0, len(r.Sigs)-1).Draw(t, "dupof")]) // the same entry repeated
 			continue
 		}
 		r.Sigs = append(r.Sigs, genSig(t))
 	}
-	if rapid.IntRange(0, 24).Draw(t, "rawshape") == 0 {
+	if rare(t, "rawshape", 30) {
 		r.Raw = rapid.SampledFrom([]string{"trunc", "empty", "null", "garbage", "notag"}).Draw(t, "raw")
 	}
 	return r
@@ -427,8 +431,9 @@ type built struct {
 	addr     int    // account signed into the command (-1 none)
 	nonce    uint64 // nonce signed into the command
 	sender   int    // account that submitted it first
-	selfOK   bool
-	nEntries int
+	selfOK      bool
+	targetKnown bool
+	nEntries    int
 }
 
 var fixedTime = time.Unix(1500000000, 0).UTC()
@@ -468,6 +473,7 @@ func buildReq(spec ReqSpec, m *model, nonceOf func(int) uint64) *built {
 	} else {
 		attr.Addr = bytes.Repeat([]byte{0x77}, 20)
 	}
+	b.targetKnown = bytes.Equal(norm32(attr.PubKey), keys[spec.Target].pub)
 	msg, _ := json.Marshal(&attr)
 	other := attr
 	other.Power = spec.Power + 1
@@ -512,19 +518,24 @@ func buildReq(spec ReqSpec, m *model, nonceOf func(int) uint64) *built {
 		if s.Flip {
 			sig[5] ^= 1
 		}
+		sentPub, sentSig := fit(keys[s.Key].pub, s.PubLen, 0xAA), fit(sig, s.SigLen, 0xEE)
+		// Valid by construction: the bytes sent are (strict) / normalise to (lenient: cut or
+		// zero-filled to the fixed size, e.g. a 63-byte signature whose dropped byte was 0)
+		// the signer's key and its genuine signature over exactly the command message.
+		// Anything else is taken to be invalid (unforgeability of ed25519 for honest keys).
+		genuine := signBytes(s.Key, msg)
 		e := builtEntry{key: s.Key}
-		good := s.Msg == "" && !s.Flip
-		e.strict = good && s.PubLen == 32 && s.SigLen == 64
-		e.lenient = good && s.PubLen >= 32 && s.SigLen >= 64
+		e.lenient = bytes.Equal(norm(sentPub, 32), keys[s.Key].pub) && bytes.Equal(norm(sentSig, 64), genuine)
+		e.strict = e.lenient && len(sentPub) == 32 && len(sentSig) == 64
 		b.entries = append(b.entries, e)
-		cmd.SInfos = append(cmd.SInfos, types.SigInfo{PubKey: fit(keys[s.Key].pub, s.PubLen, 0xAA), Signature: fit(sig, s.SigLen, 0xEE)})
+		cmd.SInfos = append(cmd.SInfos, types.SigInfo{PubKey: sentPub, Signature: sentSig})
 	}
 	b.nEntries = len(specs)
 	if spec.Cmd == "add_peer" {
 		switch spec.Self {
 		case "":
 			cmd.SelfSign = signBytes(spec.Target, msg)
-			b.selfOK = spec.TargetLen >= 32 // a shorter target is not the key that signed
+			b.selfOK = b.targetKnown // otherwise the target is not the key that signed
 		case "wrongmsg":
 			cmd.SelfSign = signBytes(spec.Target, msgOther)
 		case "otherkey":
@@ -644,10 +655,10 @@ func (m *model) judge(b *built, sender int, pre uint64) verdict {
 		}
 		// identity of the target
 		target := spec.Target
-		known := spec.TargetLen == 32 || (lenientTarget && spec.TargetLen > 32)
-		if spec.TargetLen > 32 && !lenientTarget {
+		if spec.TargetLen != 32 && !lenientTarget {
 			return nil, "target-malformed"
 		}
+		known := b.targetKnown // the bytes sent normalise to the key of K<target>
 		cur, in := m.cur[target]
 		if !known {
 			in = false // bytes that are nobody's key
@@ -847,6 +858,17 @@ func compareSet(x *h.Ctx, where string, vs *types.ValidatorSet, m *model) bool {
 	return false
 }
 
+// domainOK excludes one shape: add_peer of a TRUNCATED target key. The node zero-pads it to a
+// key nobody owns; whether the mandatory self-signature "verifies" for such bytes is a matter of
+// ed25519 small-order points (the all-zero key accepts the all-zero signature for one message
+// in four), not of this property, and the model cannot know the answer by construction.
+func domainOK(r *ReqSpec) bool {
+	if r == nil || r.Target < 0 || r.Target >= nKeys || r.Sender < 0 || r.Sender >= nAccts || r.Addr >= nAccts {
+		return false
+	}
+	return !(r.Cmd == "add_peer" && r.TargetLen < 32)
+}
+
 // ---- leg 1 ---------------------------------------------------------------------------------
 
 func runAdminCase(c AdminCase, x *h.Ctx) {
@@ -893,6 +915,9 @@ func runAdminCase(c AdminCase, x *h.Ctx) {
 			return x.Fail("exectx-panics:"+b.spec.Raw+":"+b.spec.Cmd, "%s: AdminOp.ExecTX panicked: %v %v", what, pvA, pvB)
 		}
 		obs := observed(gotA)
+		if obs != nil && obs.key < 0 {
+			return x.Fail("collected-change-for-unknown-key", "%s: a change for public key %x, which is none of the keys in play, was collected", what, gotA.PubKey)
+		}
 		if !sameChange(obs, observed(gotB)) || (errA == nil) != (errB == nil) {
 			return x.Fail("replicas-disagree-on-request", "%s: replica A collected %v (err %v), replica B %v (err %v)", what, obs, errA, observed(gotB), errB)
 		}
@@ -983,10 +1008,8 @@ func runAdminCase(c AdminCase, x *h.Ctx) {
 			x.Fail(sig, "AdminOp.EndBlock failed (%v), so the block cannot be applied and none of the accepted changes %s takes effect on set %s (gemmill/state ExecBlock returns the error; pbft finalizeCommit then panics in updateToState)", errA, pend, before)
 			return true // a real node is dead here; nothing to continue with
 		}
-		if A.op.ChangedValidators == nil || len(A.op.ChangedValidators) != 0 {
-			if len(A.op.ChangedValidators) != 0 {
-				return x.Fail("collected-changes-survive-end-of-block", "%d collected changes left after EndBlock", len(A.op.ChangedValidators))
-			}
+		if len(A.op.ChangedValidators) != 0 {
+			return x.Fail("collected-changes-survive-end-of-block", "%d collected changes left after EndBlock", len(A.op.ChangedValidators))
 		}
 		if compareSet(x, fmt.Sprintf("after block %d (collected %s on %s)", height-1, pend, before), A.vals, m) {
 			return true
@@ -994,9 +1017,9 @@ func runAdminCase(c AdminCase, x *h.Ctx) {
 		if !bytes.Equal(A.vals.Hash(), B.vals.Hash()) {
 			return x.Fail("replicas-diverge", "after block %d the replicas hold different validator sets", height-1)
 		}
-		if h2 := A.vals.Hash(); !bytes.Equal(h2, startHash) {
+		startHash = A.vals.Hash()
+		if fmt.Sprintf("%v", m.cur) != before {
 			nChanged++
-			startHash = h2
 		}
 		if restart {
 			B.vals = B.vals.Copy()
@@ -1010,7 +1033,7 @@ func runAdminCase(c AdminCase, x *h.Ctx) {
 	for i, op := range c.Ops {
 		switch op.Kind {
 		case "req":
-			if op.Req == nil || op.Req.Target < 0 || op.Req.Target >= nKeys || op.Req.Sender < 0 || op.Req.Sender >= nAccts || op.Req.Addr >= nAccts {
+			if !domainOK(op.Req) {
 				continue
 			}
 			b := buildReq(*op.Req, m, nonceOf)
